@@ -27,6 +27,10 @@ class C09Scenario(ChangeScenario):
     name = 'c09'
     prop = 'C09'
 
+    def __init__(self, **params: Any) -> None:
+        super().__init__(**params)
+        self.dev_when_ready = bool(params.get('dev_when_ready'))    # environment actions at every step boundary, not only at quiescence
+
     def check(self, env: Env) -> list[Violation]:
         out: list[Violation] = []
         if env.end_reason == 'stall' or env.loop.stall is not None:
@@ -97,7 +101,10 @@ class C09Scenario(ChangeScenario):
                     live.pop(key)
         # staged termination is actually carried out: a flagged daemon that does not leave by itself is cancelled
         # exactly when the backoff is over (if a cancellation timeout is configured at all) - default timing only.
-        if exact:
+        # ("never" is judged on every execution in which the clock was not moved past due work - a `time` deviation is a slow CPU -;
+        #  the exact instant only on the default timing)
+        timely = not any(c.split(':')[0] == 'time' for _, c in env.deviations)
+        if exact or timely:
             for key, inst, t_end in ended + [(k2, i2, self.horizon) for k2, i2 in live.items()]:
                 h = spawned[key[2]]
                 if h['on'] != 'daemon' or inst['flag'] is None or h.get('reaction') not in ('cancel', 'ignore'):
@@ -107,9 +114,11 @@ class C09Scenario(ChangeScenario):
                 due = inst['flag'] + (h.get('cancellation_backoff') or 0.0)
                 if self._operator_gone(env, key[0], due + 0.01) or due >= self.horizon - 1 or env.owes():
                     continue
-                acts = [p['name'] for tt, k, p in env.obs if k == 'user' and inst['flag'] < tt <= due + 0.001]
+                acts = [p['name'] for tt, k, p in env.obs if k == 'user' and (inst['flag'] < tt or (not exact and inst['flag'] == tt)) and tt <= due + 0.001]   # (moved user actions can tie with the flag)
                 if any(a.startswith(('label-a-on-yes', 'resume')) for a in acts):
                     continue    # the reason to stop went away again: no escalation is demanded
+                if not exact and (inst['cancel'] is not None or due >= self.horizon - 4):
+                    continue
                 if inst['cancel'] is None:
                     vanished = any(w['post'] is None and w['pre'] is not None and w['pre']['metadata']['uid'] == key[1] and inst['flag'] <= w['t'] <= due
                                    for w in env.world.writes)
@@ -313,10 +322,29 @@ def run(tier: str, seed: int) -> CheckResult:
             for n, hs in sets for h in histories(depth) for sp in (6.0, 1.0)]
     reps = [build(n, hs, h, 1.0, grid=1.0) for n, hs in sets if n in ('daemon[cancel,2.0,3.0]', 'daemon+timer', 'timer[idle]', 'daemon[ignore,2.0,3.0]')
             for h in histories(2) if len(h) == 2 and h[0][0] in ('delete', 'pause', 'label')]
+    # the operator pauses (exits) in the very instant in which an event of the object is being processed: every placement of the pause among
+    # the loop's step boundaries of that processing (the worker stages the stop itself when it sees the pause; the killer's sweep comes later)
+    inst = []
+    for n, hs in sets:
+        if n in ('daemon[cancel,2.0,3.0]', 'daemon[ignore,2.0,3.0]', 'daemon[obeys,2.0,3.0]', 'daemon+timer', 'daemon[cancel,None,3.0]'):
+            for ops in ([('status', 'a', 1), ('pause',)], [('pause',), ('status', 'a', 1)], [('status', 'a', 1), ('stop',)],
+                        [('label', 'a', 'l', 'v'), ('pause',)], [('status', 'a', 1), ('pause',), ('resume',)]):
+                sc = build(n, hs, [], 1.0, dev_when_ready=True, delays=False, time_dev=False)
+                params = dict(sc.params)
+                params['user'] = [(1.0, 'createl', 'a', 'on', 'yes')] + [(6.0 if a[0] != 'resume' else 14.0, *a) for a in ops]
+                params['horizon'] = 24.0
+                inst.append(C09Scenario(**params))
+            # ... with a second object of the kind: the killer's sweep goes from daemon to daemon, the workers run in between
+            for ops in ([('pausestatus', 'b', 1)], [('pausestatus', 'a', 1)], [('pausestatus', 'b', 1), ('resume',)]):
+                sc = build(n, hs, [], 1.0, dev_when_ready=True, delays=False, time_dev=False)
+                params = dict(sc.params)
+                params['user'] = [(1.0, 'createl', 'a', 'on', 'yes'), (2.0, 'createl', 'b', 'on', 'yes')] + [(6.0 if a[0] != 'resume' else 14.0, *a) for a in ops]
+                params['horizon'] = 24.0
+                inst.append(C09Scenario(**params))
     if tier == 'quick':
-        groups = [('histories', hist, 0, 70.0), ('timing', reps, 1, 40.0)]
+        groups = [('histories', hist, 0, 70.0), ('timing', reps, 1, 40.0), ('pause-while-an-event-is-processed', inst, 1, 40.0)]
     else:
-        groups = [('histories', hist, 0, 800.0), ('timing', reps, 2, 600.0)]
+        groups = [('histories', hist, 0, 800.0), ('timing', reps, 2, 600.0), ('pause-while-an-event-is-processed', inst, 2, 600.0)]
     stats, viols, info, nscen = run_groups(groups, seed=seed)
     return CheckResult(
         prop='C09', tier=tier, seed=seed, stats=stats, violations=viols, scenarios=nscen,
